@@ -133,9 +133,9 @@ Lemma ser_function_fuel : forall m m' irv f, (ifdepth f <= m)%nat -> (ifdepth f 
 Proof.
   intros m m' irv f Hm Hm'. unfold ifdepth in Hm, Hm'.
   rewrite igdepth_eq in Hm, Hm'.
-  assert (AG : forall d g', (S d <= m)%nat -> (S d <= m')%nat -> (igdepth g' <= d)%nat ->
-                            ser_graph m None g' = ser_graph m' None g').
-  { intros d g' H1 H2 H3. apply ser_graph_fuel_gen; lia. }
+  assert (AG : forall iv d g', (S d <= m)%nat -> (S d <= m')%nat -> (igdepth g' <= d)%nat ->
+                               ser_graph m iv g' = ser_graph m' iv g').
+  { intros iv d g' H1 H2 H3. apply ser_graph_fuel_gen; lia. }
   unfold ser_function. cbv zeta.
   apply res_bind_ext. intros ins.
   assert (EA : forall a, In a (if_attrs f) ->
@@ -145,14 +145,14 @@ Proof.
     intros g' Hg'.
     pose proof (in_le_list_max _ _ (in_map (fun a => iattrv_depth igdepth (ia_val a)) _ _ Ha)) as D.
     cbv beta in D.
-    apply (AG (iattrv_depth igdepth (ia_val a))); lia. }
+    apply (AG None (iattrv_depth igdepth (ia_val a))); lia. }
   assert (EN : forall n, In n (ig_nodes (if_graph f)) ->
-                 ser_node (ser_graph m None) (Some irv) n = ser_node (ser_graph m' None) (Some irv) n).
+                 ser_node (ser_graph m (Some irv)) (Some irv) n = ser_node (ser_graph m' (Some irv)) (Some irv) n).
   { intros n Hn. apply ser_node_ext. intros a Ha.
     pose proof (nodes_node_depth _ _ Hn) as D1.
     pose proof (node_attr_depth _ _ Ha) as D2.
     apply (attr_agree_depth _ _ (iattrv_depth igdepth (ia_val a))); [|lia].
-    intros g' Hg'. apply (AG (iattrv_depth igdepth (ia_val a))); lia. }
+    intros g' Hg'. apply (AG (Some irv) (iattrv_depth igdepth (ia_val a))); lia. }
   rewrite (mapM_ext_in _ (fun a => if attr_has_value a
                                    then res_bind (ser_attr (ser_graph m' None) a) (fun x => Ok [x])
                                    else Ok []) (if_attrs f)).
